@@ -179,7 +179,7 @@ fn completion_order_differs(w: &World, top: usize) -> bool {
     order.len() >= 2 && order.windows(2).any(|x| x[0] > x[1])
 }
 fn boundary_len(n: usize) -> bool {
-    matches!(n, 0 | 12 | 16 | 22 | 23 | 24 | 63 | 64 | 65 | 66 | 128 | 129 | 200 | 255 | 256 | 257 | 300 | 1025 | 1100)
+    matches!(n, 0 | 12 | 13 | 16 | 22 | 23 | 24 | 63 | 64 | 65 | 66 | 128 | 129 | 200 | 255 | 256 | 257 | 300 | 1025 | 1100)
 }
 fn n04(c: &Case, r: &RunOut) -> bool {
     completion_order_differs(&r.world, r.top) || boundary_len(c.root.children.len())
